@@ -5,6 +5,7 @@ import Mahotas.Proofs.C14
 import Mahotas.Proofs.C14Holes
 import Mahotas.Proofs.C14Reg
 import Mahotas.Proofs.StarCheck
+import Mahotas.Proofs.C14Families
 open Mahotas Mahotas.C14
 
 /-- **C14-T1 (local extrema).** For every image of every rank and shape, every pixel `p` inside it and
@@ -147,3 +148,93 @@ example :
     (allPos A.shape).map (hitmissAt A [3, 3] (hmEntries [3, 3] #[2, 1, 2, 1, 0, 1, 2, 1, 2]))
       = [0, 0, 0, 0, 1, 0, 0, 0, 0] := by
   decide
+
+/-! ## Round 2 — the neighbourhood hypotheses proved for whole families
+
+`C01.CrossBoxDisk d S bc` (`Proofs/C02Families.lean`, spelled out in `C02_cross_box_disk_family`): `(S, bc)` is
+`crossElem d r` on the shape `3 × … × 3` (what `get_structuring_elem` builds; any radius), `diskElem d r` on
+`(2r+1) × … × (2r+1)` (any radius), or an all-ones box of rank `d` with arbitrary odd sides.
+`neighbours S bc` is the list the driver hands to the kernels' models (non-zero entries, centre removed). -/
+
+/-- **`StarShaped` and `SymNb` for every cross, box and disk.** For every rank `d`, every radius and every
+odd box shape, the neighbourhood list the driver builds from a cross `crossElem d r`, a disk `diskElem d r`
+or an all-ones odd box is coordinate-wise star-shaped (hypothesis of `C14_locmax_eq_spec` and
+`C14_regional_eq_spec`), consists of offsets of length `d`, is closed under negation, hence is a symmetric
+neighbourhood (`SymNb`) of **every** image of rank `d`; and it is exactly the set of non-centre offsets of the
+compressed support of C01/C02 (all of height 1). -/
+theorem C14_cross_box_star_sym (d : Nat) (S : List Nat) (bc : Array Int) (h : C01.CrossBoxDisk d S bc) :
+    StarShaped (neighbours S bc) ∧
+    (∀ k ∈ neighbours S bc, k.length = d) ∧
+    (∀ k ∈ neighbours S bc, negPos k ∈ neighbours S bc) ∧
+    (∀ A : Img Int, A.shape.length = d → SymNb A (neighbours S bc)) ∧
+    (∀ k, k ∈ neighbours S bc ↔ (k, (1 : Int)) ∈ C01.support S bc true ∧ isZeroPos k = false) := by
+  have hr := h.regular
+  refine ⟨starShaped_family hr, neighbours_len hr, ?_, fun A hd => symNb_family hr A hd, ?_⟩
+  · intro k hk
+    exact (symNb_family hr { shape := List.replicate d 1, data := #[] } (by simp)).neg k hk
+  · intro k
+    rw [mem_neighbours]
+    constructor
+    · rintro ⟨⟨kh, hkh, rfl⟩, hz⟩
+      have : kh = (kh.1, 1) := Prod.ext rfl (hr.ones kh hkh)
+      rw [← this]; exact ⟨hkh, hz⟩
+    · rintro ⟨hk, hz⟩; exact ⟨⟨(k, 1), hk, rfl⟩, hz⟩
+
+/-- **local extrema with any cross / box / disk = their definition**, with no hypothesis on the
+neighbourhood: for every image of every rank and shape, every pixel `p` inside it and the neighbourhood of any
+`crossElem`, `diskElem` (every radius) or all-ones odd box of the rank of the image, the model of
+`locmin_max` marks `p` exactly when no neighbour inside the image exceeds / undercuts it; consequently the
+whole output array of the model is the specification's (the two lists the driver prints). -/
+theorem C14_locmax_eq_spec_cross_box_disk (isMin : Bool) (A : Img Int) (S : List Nat) (bc : Array Int)
+    (hfam : C01.CrossBoxDisk A.shape.length S bc) :
+    (∀ p, inside A.shape p = true →
+      locAt isMin A (neighbours S bc) p = locSpecAt isMin A (neighbours S bc) p) ∧
+    (locModel isMin A (neighbours S bc)).toList =
+      (allPos A.shape).map (locSpecAt isMin A (neighbours S bc)) := by
+  have hr := hfam.regular
+  have key : ∀ p, inside A.shape p = true →
+      locAt isMin A (neighbours S bc) p = locSpecAt isMin A (neighbours S bc) p := by
+    intro p hp
+    refine locAt_eq_spec isMin A _ p hp ?_ (starShaped_family hr)
+    intro k hk
+    rw [neighbours_len hr k hk, C01.inside_length hp]
+  refine ⟨key, ?_⟩
+  unfold locModel
+  rw [List.toList_toArray]
+  exact List.map_congr_left fun p hp => key p ((C01.mem_allPos A.shape p).mp hp)
+
+/-- **regional extrema with any cross / box / disk = plateaus without a strictly better neighbour**, with no
+hypothesis on the neighbourhood: for every image of every rank and shape, every pixel `q` inside it and the
+neighbourhood of any `crossElem`, `diskElem` (every radius) or all-ones odd box of the rank of the image, the
+model of `regmax`/`regmin` marks `q` exactly when every pixel of the plateau of `q` has no strictly better
+neighbour inside the image (`Regional`). -/
+theorem C14_regional_eq_spec_cross_box_disk (isMin : Bool) (A : Img Int) (S : List Nat) (bc : Array Int)
+    (hfam : C01.CrossBoxDisk A.shape.length S bc) (q : List Int) (hq : inside A.shape q = true) :
+    (regModel isMin A (neighbours S bc)).getD (ravelI A.shape q) false = true ↔
+      Regional isMin A (neighbours S bc) q :=
+  regModel_spec (symNb_family hfam.regular A rfl) (starShaped_family hfam.regular) q hq
+
+/-! non-vacuity of Round 2: the 3-D cross of radius 2 (18 neighbours), the radius-2 disk (8 neighbours) and
+    the 5×3 box (14 neighbours) are instances; the corollaries apply to the 2×3 image with a plateau
+    touching the border used above, with no further hypothesis on the neighbourhood. -/
+example : StarShaped (neighbours [3, 3, 3] (C01.crossElem 3 2)) ∧
+    (neighbours [3, 3, 3] (C01.crossElem 3 2)).length = 18 :=
+  ⟨(C14_cross_box_star_sym 3 _ _ (Or.inl ⟨2, rfl, rfl⟩)).1, by decide⟩
+example : StarShaped (neighbours [5, 5] (C01.diskElem 2 2)) ∧
+    (neighbours [5, 5] (C01.diskElem 2 2)).length = 8 :=
+  ⟨(C14_cross_box_star_sym 2 _ _ (Or.inr (Or.inl ⟨2, rfl, rfl⟩))).1, by decide⟩
+example : SymNb { shape := [2, 3], data := #[2, 2, 1, 0, 1, 2] } (neighbours [5, 3] (Array.replicate 15 1)) ∧
+    (neighbours [5, 3] (Array.replicate 15 1)).length = 14 :=
+  ⟨(C14_cross_box_star_sym 2 _ _ (Or.inr (Or.inr ⟨rfl, by decide, by decide⟩))).2.2.2.1 _ rfl, by decide⟩
+
+example :
+    let A : Img Int := { shape := [2, 3], data := #[2, 2, 1, 0, 1, 2] }
+    (locModel false A (neighbours [3, 3] (C01.crossElem 2 1))).toList =
+      (allPos A.shape).map (locSpecAt false A (neighbours [3, 3] (C01.crossElem 2 1))) ∧
+    ((regModel false A (neighbours [3, 3] (C01.crossElem 2 1))).getD (ravelI A.shape [0, 1]) false = true ↔
+      Regional false A (neighbours [3, 3] (C01.crossElem 2 1)) [0, 1]) ∧
+    (regModel false A (neighbours [3, 3] (C01.crossElem 2 1))).toList = [true, true, false, false, false, true] := by
+  intro A
+  exact ⟨(C14_locmax_eq_spec_cross_box_disk false A [3, 3] (C01.crossElem 2 1) (Or.inl ⟨1, rfl, rfl⟩)).2,
+    C14_regional_eq_spec_cross_box_disk false A [3, 3] (C01.crossElem 2 1) (Or.inl ⟨1, rfl, rfl⟩) [0, 1]
+      (by decide), by decide⟩
